@@ -1,5 +1,5 @@
 (* C19 — locale names are parsed, normalised and compared consistently.
-   parse_language is the scanner for _language_regexp as it is (with `$`); parse_language_Z is the same with `\Z`.
+   parse_language is the scanner for _language_regexp as it is (it ends with `\Z`).
    gen_cfg munch = the tables regenerated from /repo (Generated/IsoCodes.v) with an arbitrary Unicode folding. *)
 From Coq Require Import NArith List Bool.
 From I18n Require Import Lib.Outcome Model.Ling Model.LingData Generated.IsoCodes Spec.Locale
@@ -8,26 +8,9 @@ Import ListNotations.
 Local Open Scope N_scope.
 
 (* ---------- parse / print ---------- *)
-(* The statement of the property is false for the code as it is (D8: "pl\n" is accepted and prints back as "pl") *)
-Theorem C19_roundtrip_refuted : ~ (forall s l, parse_language s = Ok l -> same_up_to_encoding_case s (str_language l)).
-Proof. exact roundtrip_refuted. Qed.
-Print Assumptions C19_roundtrip_refuted.
-
-(* ... and holds for every string that does not end with a newline *)
-Theorem C19_roundtrip : forall s l, ~ ends_with_newline s -> parse_language s = Ok l ->
-  same_up_to_encoding_case s (str_language l).
-Proof. exact roundtrip_guarded. Qed.
+Theorem C19_roundtrip : forall s l, parse_language s = Ok l -> same_up_to_encoding_case s (str_language l).
+Proof. exact roundtrip. Qed.
 Print Assumptions C19_roundtrip.
-
-(* ... the only difference being that newline: with \Z the statement holds for all strings *)
-Theorem C19_dollar_vs_Z : forall s, parse_language s = parse_language_Z s \/
-  (exists s', s = s' ++ [10] /\ parse_language s = parse_language_Z s' /\ exists l, parse_language_Z s' = Ok l).
-Proof. exact parse_dollar. Qed.
-Print Assumptions C19_dollar_vs_Z.
-
-Theorem C19_roundtrip_Z : forall s l, parse_language_Z s = Ok l -> same_up_to_encoding_case s (str_language l).
-Proof. exact roundtrip_Z. Qed.
-Print Assumptions C19_roundtrip_Z.
 
 (* the other direction: a well-formed Language object prints to a name that parses back to it *)
 Theorem C19_print_parse : forall l, language_wf l -> parse_language (str_language l) = Ok l.
@@ -35,22 +18,9 @@ Proof. exact print_parse. Qed.
 Print Assumptions C19_print_parse.
 
 (* everything else is rejected *)
-Theorem C19_reject_iff_refuted : ~ (forall s, parse_language s = Err LSyntax <-> ~ locale_grammar s).
-Proof. exact reject_iff_refuted. Qed.
-Print Assumptions C19_reject_iff_refuted.
-
-Theorem C19_reject_iff : forall s, ~ ends_with_newline s -> (parse_language s = Err LSyntax <-> ~ locale_grammar s).
-Proof. exact reject_iff_guarded. Qed.
+Theorem C19_reject_iff : forall s, parse_language s = Err LSyntax <-> ~ locale_grammar s.
+Proof. exact reject_iff. Qed.
 Print Assumptions C19_reject_iff.
-
-Theorem C19_reject_iff_exact : forall s, parse_language s = Err LSyntax <->
-  ~ (locale_grammar s \/ exists s', s = s' ++ [10] /\ locale_grammar s').
-Proof. exact reject_iff_dollar. Qed.
-Print Assumptions C19_reject_iff_exact.
-
-Theorem C19_reject_iff_Z : forall s, parse_language_Z s = Err LSyntax <-> ~ locale_grammar s.
-Proof. exact reject_iff_Z. Qed.
-Print Assumptions C19_reject_iff_Z.
 
 Theorem C19_parse_total : forall s c, parse_language s <> Crash c.
 Proof. exact parse_no_crash. Qed.
@@ -119,10 +89,9 @@ Print Assumptions C19_cli_rejects.
 
 (* ---------- the decision logic of check_language ---------- *)
 (* which source outside the header names the language: -l, else the directory above LC_MESSAGES, else the base name
-   of a .po file (lower quality); the phase fails only through `assert ext == '.po'` *)
+   of a .po file (lower quality) *)
 Theorem C19_external_source : forall cfg opt path,
-  (external_language cfg opt path = Ok (external_source cfg opt path) /\ ~ assertion_fails cfg opt path) \/
-  (external_language cfg opt path = Crash CAssertion /\ assertion_fails cfg opt path).
+  external_language cfg opt path = Ok (external_source cfg opt path).
 Proof. exact external_language_spec. Qed.
 Print Assumptions C19_external_source.
 
@@ -139,7 +108,7 @@ Theorem C19_disparity_iff : forall cfg opt path metas pls pcs ds lang,
   In (DDisparity l src m SrcLanguageField) ds <->
     exists q, external_source cfg opt path = Some (l, src, q) /\
       field_loc cfg metas = Some m /\ l <> m /\
-      (q = false -> path_names path (Some m) = false).
+      (q = false -> path_names path m = false).
 Proof. exact disparity_iff. Qed.
 Print Assumptions C19_disparity_iff.
 
@@ -176,19 +145,9 @@ Theorem C19_language_sources : forall cfg opt path metas pls pcs ds lang,
 Proof. exact language_sources. Qed.
 Print Assumptions C19_language_sources.
 
-(* "when no source names a language the tool says so": as an equivalence it is false for the code as it is
-   (D15: a path component called None, a Language field with unknown codes, the language in the base name) ... *)
-Theorem C19_unable_refuted : ~ (forall cfg opt path metas pls pcs ds lang,
-    check_language cfg opt path metas pls pcs false = Ok (ds, lang) ->
-    (In DUnable ds <->
-       external_source cfg opt path = None /\ field_loc cfg metas = None /\ poedit_language cfg pls pcs = None)).
-Proof. exact unable_refuted. Qed.
-Print Assumptions C19_unable_refuted.
-
-(* ... and holds for every path that does not contain "/None/" *)
+(* when no source names a language the tool says so, and only then *)
 Theorem C19_unable_iff : forall cfg opt path metas pls pcs ds lang,
   check_language cfg opt path metas pls pcs false = Ok (ds, lang) ->
-  lg_infix s_slash_None path = false ->
   (In DUnable ds <->
      external_source cfg opt path = None /\ field_loc cfg metas = None /\ poedit_language cfg pls pcs = None).
 Proof. exact unable_iff. Qed.
@@ -217,12 +176,11 @@ Theorem C19_lookup_no_crash : forall munch nm c, lookup_munched (gen_cfg munch) 
 Proof. exact lookup_no_crash. Qed.
 Print Assumptions C19_lookup_no_crash.
 
-(* ... and check_language fails in one way only: the base name of the path is dots followed by "po" (assert ext == '.po') *)
-Theorem C19_check_language_crash : forall munch opt path metas pls pcs tmpl c,
-  check_language (gen_cfg munch) opt path metas pls pcs tmpl = Crash c ->
-  c = CAssertion /\ tmpl = false /\ assertion_fails (gen_cfg munch) opt path.
-Proof. exact check_language_crash. Qed.
-Print Assumptions C19_check_language_crash.
+(* ... and check_language raises nothing at all *)
+Theorem C19_check_language_no_crash : forall munch opt path metas pls pcs tmpl c,
+  check_language (gen_cfg munch) opt path metas pls pcs tmpl <> Crash c.
+Proof. exact check_language_no_crash. Qed.
+Print Assumptions C19_check_language_no_crash.
 
 Theorem C19_no_own_error : forall cfg opt path metas pls pcs tmpl e,
   check_language cfg opt path metas pls pcs tmpl <> Err e.
@@ -253,4 +211,18 @@ Example C19_ex_libreoffice :
   check_language id_cfg None
     [116;47;100;97;47;100;47;112;108;95;80;76;46;112;111] (* "t/da/d/pl_PL.po" *) [[100;97]] [] [] false
   = Ok ([], Some (mkLang [100;97] None None None)).
+Proof. vm_compute. reflexivity. Qed.
+
+(* formerly D17: a/None/b/pl.po with "Language: xx": the base name still names the language *)
+Example C19_ex_none_component :
+  check_language id_cfg None [97;47;78;111;110;101;47;98;47;112;108;46;112;111] [[120;120]] [] [] false
+  = Ok ([DInvalidLanguage [120;120] None], Some l_pl).
+Proof. vm_compute. reflexivity. Qed.
+
+(* formerly D8 *)
+Example C19_ex_newline : parse_language [112;108;10] = Err LSyntax.
+Proof. vm_compute. reflexivity. Qed.
+
+(* formerly D16: base name "..po" *)
+Example C19_ex_dots_po : check_language id_cfg None [46;46;112;111] [] [] [] false = Ok ([DNoLanguageField None; DUnable], None).
 Proof. vm_compute. reflexivity. Qed.
